@@ -13,7 +13,8 @@ import scipy as _scipy
 import scipy.linalg as _sla
 import z3
 
-from . import core, npproxy
+from . import core, npproxy, shapes
+from .shapes import FakeArray
 from .core import Sym, SymBool, SymArr, has_sym, is_sym, wrap, term_of, ex, sym_sqrt, sym_exp, sym_log
 from .npproxy import NP, _isobj
 
@@ -88,6 +89,9 @@ def make_check_array(real=_REAL_CHECK_ARRAY):
 
   def check_array(array, *args, **kwargs):
     ba = sig.bind(array, *args, **kwargs)      # TypeError for unknown keywords, like the real one
+    if isinstance(array, FakeArray):
+      ba.apply_defaults()
+      return shapes.emulate_check_array(array, ba.arguments)
     if not _isobj(array):
       return real(array, *args, **kwargs)
     ba.apply_defaults()
@@ -103,6 +107,17 @@ def make_check_X_y(real=_REAL_CHECK_X_Y):
 
   def check_X_y(X, y, *args, **kwargs):
     ba = sig.bind(X, y, *args, **kwargs)
+    if isinstance(X, FakeArray):
+      ba.apply_defaults()
+      a = dict(ba.arguments)
+      if y is None:
+        raise ValueError('requires y to be passed, but the target y is None')
+      Xc = shapes.emulate_check_array(X, a)
+      ya = _check_y_like(y, a)
+      n = shapes.emulate_num_samples(Xc)
+      if not bool(n == ya.shape[0]):
+        raise ValueError('Found input variables with inconsistent numbers of samples')
+      return Xc, ya
     if not _isobj(X) and not _isobj(y):
       return real(X, y, *args, **kwargs)
     ba.apply_defaults()
@@ -131,6 +146,22 @@ def make_check_X_y(real=_REAL_CHECK_X_Y):
                        % [Xc.shape[0], ya.shape[0]])
     return Xc, wrap(ya)
   return check_X_y
+
+
+def _check_y_like(y, a):
+  ya = y if isinstance(y, _np.ndarray) else _np.asarray(y, dtype=object if _isobj(y) else None)
+  if a.get('multi_output', False):
+    if ya.ndim not in (1, 2):
+      raise ValueError('y should be a 1d or 2d array')
+  else:
+    if ya.ndim == 2 and ya.shape[1] == 1:
+      ya = ya.ravel()
+    elif ya.ndim != 1:
+      raise ValueError('y should be a 1d array, got an array of shape %s instead.' % (ya.shape,))
+  for v in ya.flat:
+    if core.is_inf(v) or core.is_nan(v):
+      raise ValueError('Input y contains NaN or infinity.')
+  return wrap(ya)
 
 
 check_array = make_check_array()
@@ -240,13 +271,22 @@ def eigh_contract(A, *a, **k):
   return W, Vm
 
 
+def _conc(A):
+  """object array without symbols -> float array (then the real routine is used)"""
+  if isinstance(A, _np.ndarray) and A.dtype == object and not has_sym(A):
+    return _np.asarray(A, dtype=float)
+  return A
+
+
 def np_eigh(A, *a, **k):
+  A = _conc(A)
   if not _isobj(A):
     return _np.linalg.eigh(A, *a, **k)
   return eigh_contract(A)
 
 
 def sp_eigh(A, b=None, *a, **k):
+  A, b = _conc(A), _conc(b)
   if not _isobj(A, b):
     return _sla.eigh(A, b, *a, **k)
   if b is not None:
@@ -255,6 +295,7 @@ def sp_eigh(A, b=None, *a, **k):
 
 
 def cholesky(A):
+  A = _conc(A)
   if not _isobj(A):
     return _np.linalg.cholesky(A)
   A, d = _sq(A)
@@ -303,6 +344,7 @@ def _adjugate(A, d):
 
 
 def inv(A):
+  A = _conc(A)
   if not _isobj(A):
     return _np.linalg.inv(A)
   A, d = _sq(A)
@@ -317,6 +359,7 @@ def inv(A):
 
 
 def slogdet(A):
+  A = _conc(A)
   if not _isobj(A):
     return _np.linalg.slogdet(A)
   A, d = _sq(A)
@@ -326,6 +369,7 @@ def slogdet(A):
 
 
 def pinvh(A, *a, **k):
+  A = _conc(A)
   if not _isobj(A):
     return _sla.pinvh(A, *a, **k)
   A, d = _sq(A)
@@ -354,6 +398,7 @@ def pinvh(A, *a, **k):
 
 
 def matrix_rank(A, *a, **k):
+  A = _conc(A)
   if not _isobj(A):
     return _np.linalg.matrix_rank(A, *a, **k)
   A, d = _sq(A)
@@ -373,7 +418,7 @@ def matrix_rank(A, *a, **k):
 
 
 for _n, _f in (('eigh', np_eigh), ('cholesky', cholesky), ('inv', inv), ('slogdet', slogdet),
-               ('matrix_rank', matrix_rank), ('det', lambda A: det(A) if _isobj(A) else _np.linalg.det(A))):
+               ('matrix_rank', matrix_rank), ('det', lambda A: det(A) if _isobj(_conc(A)) else _np.linalg.det(_conc(A)))):
   npproxy.install_linalg(_n, _f)
 
 
@@ -590,6 +635,7 @@ _PATCH = {
 }
 
 _saved = {}
+MODS = {}
 
 
 def install(extra=None):
@@ -608,6 +654,8 @@ def install(extra=None):
       _saved.setdefault((m, name), mods[m].__dict__.get(name))
       setattr(mods[m], name, val)
   npproxy._Flag.on = True
+  MODS.clear()
+  MODS.update(mods)
   return mods
 
 
